@@ -1,7 +1,7 @@
 (* Trace predicate P_C10 (the property itself, written from the property text and
    the message formats of docs/standalone-signaling-api-v1.md, not from the
    model) and the judge used by the generated cases files.  No proofs. *)
-From Coq Require Import List ZArith NArith String Bool.
+From Coq Require Import List ZArith NArith String Bool Ascii.
 From Verif Require Export lib.Json lib.Decode model.ClientMsg.
 Import ListNotations.
 Open Scope string_scope.
@@ -226,13 +226,24 @@ Definition by_allowed (tag : N) (i : input) (b : bmsg) : bool :=
       | BMessage s => String.eqb ty "message" && s
       | BControl s => String.eqb ty "control" && s
       | BJoin | BLeave => in_list ty ["room"; "bye"; "internal"]
-      | BUpdate => in_list ty ["room"; "internal"]
+      | BUpdate => in_list ty ["room"; "bye"; "internal"]
       | BTransient => in_list ty ["transient"; "internal"]
       | BDialout => String.eqb ty "internal"
       | BOther => false
       end
   | _ => false
   end.
+
+(* a frame the judge has no reading of (text that is not JSON for encoding/json but
+   is accepted by the lenient lexer of the decoder): the bystander may get what any
+   message could legitimately cause, from the true sender *)
+Definition by_allowed_opaque (tag : N) (b : bmsg) : bool :=
+  negb (N.eqb tag 0) &&
+  match b with BMessage s | BControl s => s | BOther => false | _ => true end.
+
+Definition P_opaque (tag : N) (o : obs) : bool :=
+  o_alive o && forallb reply_wf (o_replies o) && o_by_ok o &&
+  forallb (by_allowed_opaque tag) (o_by o) && negb (Z.eqb (o_api o) (-1)).
 
 Definition P_one (tag : N) (i : input) (o : obs) : bool :=
   o_alive o && forallb reply_wf (o_replies o) && o_by_ok o &&
@@ -242,12 +253,55 @@ Definition P_one (tag : N) (i : input) (o : obs) : bool :=
    (match o_replies o with [r] => is_error r | _ => false end &&
     match o_by o with [] => true | _ => false end && o_dsame o && negb (o_closed o) && Z.eqb (o_api o) 0)).
 
-Definition step := (N * input * obs)%type.
+Definition step := (N * option input * obs)%type.
+Definition mkstep (tag : N) (i : input) (o : obs) : step := (tag, Some i, o).
+Definition mkopaque (tag : N) (o : obs) : step := (tag, None, o).
 Definition trace := list step.
-Definition P_C10 (tr : trace) : bool :=
-  forallb (fun s => let '(tag, i, o) := s in P_one tag i o) tr.
+Definition P_step (s : step) : bool :=
+  let '(tag, i, o) := s in
+  match i with Some i => P_one tag i o | None => P_opaque tag o end.
+Definition P_C10 (tr : trace) : bool := forallb P_step tr.
 
 (* ---- comparison with the model ------------------------------------------------------------------ *)
+(* A string as it leaves the server: the JSON writer replaces every byte that does
+   not start a valid UTF-8 sequence by U+FFFD (EF BF BD) and goes on with the next
+   byte (unicode/utf8.DecodeRuneInString). *)
+Definition seq_len (s : string) : nat :=
+  let b c := nat_of_ascii c in
+  let cont lo hi c := btw lo hi (b c) in
+  match s with
+  | EmptyString => 0
+  | String c0 r0 =>
+      let n := b c0 in
+      if Nat.ltb n 128 then 1
+      else
+        let two := match r0 with String c1 _ => cont 128 191 c1 | _ => false end in
+        let three lo hi := match r0 with String c1 (String c2 _) => cont lo hi c1 && cont 128 191 c2 | _ => false end in
+        let four lo hi := match r0 with String c1 (String c2 (String c3 _)) => cont lo hi c1 && cont 128 191 c2 && cont 128 191 c3 | _ => false end in
+        if btw 194 223 n then (if two then 2 else 0)
+        else if Nat.eqb n 224 then (if three 160 191 then 3 else 0)
+        else if btw 225 236 n || btw 238 239 n then (if three 128 191 then 3 else 0)
+        else if Nat.eqb n 237 then (if three 128 159 then 3 else 0)
+        else if Nat.eqb n 240 then (if four 144 191 then 4 else 0)
+        else if btw 241 243 n then (if four 128 191 then 4 else 0)
+        else if Nat.eqb n 244 then (if four 128 143 then 4 else 0)
+        else 0
+  end%nat.
+Fixpoint sanitize_go (s : string) (skip : nat) : string :=
+  match s with
+  | EmptyString => EmptyString
+  | String c r =>
+      match skip with
+      | S k => String c (sanitize_go r k)
+      | O =>
+          match seq_len s with
+          | O => String (ascii_of_nat 239) (String (ascii_of_nat 191) (String (ascii_of_nat 189) (sanitize_go r 0)))
+          | S k => String c (sanitize_go r k)
+          end
+      end
+  end.
+Definition wire (s : string) : string := sanitize_go s 0.
+
 Definition reply_eqb (a b : reply) : bool :=
   match a, b with
   | RError c i, RError c' i' => String.eqb c c' && String.eqb i i'
@@ -272,10 +326,13 @@ Definition reply_allowed (id : string) (c : call) (r : reply) : bool :=
   | CRoom _ _ _, RRoom i => String.eqb i id
   | CRoom _ _ _, RError _ i => String.eqb i id
   | CRoom _ _ _, REvent => true
+  | CRoom _ _ _, RTransient => true            (* the transient data of the room just joined *)
   | CMessage _ _ _ _ _, RError _ i => String.eqb i id
   | CMessage _ _ _ _ (Some _), RMessage => true
   | CInternal _ _, RError _ i => String.eqb i id
   | CInternal _ _, REvent => true
+  | CInternal _ _, RTransient => true          (* dialout status for the room the internal client itself is in *)
+  | CInternal _ _, RDialout => true
   | CTransient _ _ _ _, RError _ i => String.eqb i id
   | CTransient _ _ _ _, RTransient => true
   | CBye, RBye i => String.eqb i id
@@ -293,10 +350,10 @@ Definition oracle := (string * (bool * bool * bool))%type.
 Definition orc_lookup (which : nat) (tbl : list oracle) (s : string) : bool :=
   match assoc s tbl with
   | Some (a, b, c) => match which with 0%nat => a | 1%nat => b | _ => c end
-  | None => true
+  | None => match which with 0%nat => true | _ => false end   (* url.Parse accepts nearly everything; a random string is neither a request URI nor an SDP *)
   end.
 
-Definition model (fixed : bool) (tbl : list oracle) (tag : N) (i : input) : verdict :=
+Definition model (fixed : fixes) (tbl : list oracle) (tag : N) (i : input) : verdict :=
   classify (orc_lookup 0 tbl) (orc_lookup 1 tbl) (orc_lookup 2 tbl) fixed (state_of tag) i.
 
 Definition doc_id (i : input) : string :=
@@ -312,12 +369,12 @@ Definition agrees (v : verdict) (i : input) (o : obs) : bool :=
   match v with
   | VTooLarge => o_alive o && o_closed o && match o_replies o with [] => true | _ => false end
   | VDecodeError => o_alive o && replies_eqb (o_replies o) [RError "invalid_format" ""] && silent o
-  | VError c id => o_alive o && replies_eqb (o_replies o) [RError (code_text c) id] && silent o
+  | VError c id => o_alive o && replies_eqb (o_replies o) [RError (code_text c) (wire id)] && silent o
   | VIgnored => o_alive o && match o_replies o with [] => true | _ => false end && silent o
   | VPanic => negb (o_alive o)
   | VDispatch cs =>
       o_alive o &&
-      forallb (fun r => existsb (fun c => reply_allowed (doc_id i) c r) cs) (o_replies o) &&
+      forallb (fun r => existsb (fun c => reply_allowed (wire (doc_id i)) c r) cs) (o_replies o) &&
       Bool.eqb (has_bye cs) (o_closed o) &&
       Z.eqb (expected_api cs) (o_api o)
   end.
@@ -325,11 +382,12 @@ Definition agrees (v : verdict) (i : input) (o : obs) : bool :=
 Definition inert_verdict (v : verdict) : bool :=
   match v with VDecodeError | VError _ _ => true | _ => false end.
 
-(* id, does the tree under test contain fixes/C10/01, mode (0: compare with the model
+(* id, does the tree under test contain fixes/C10/01 and fixes/C10/02, mode (0: compare with the model
    and judge; 1: judge only - input the model is not given, e.g. text that is not
    JSON for encoding/json but may be for the lenient lexer), oracle table, steps *)
-Definition case := (N * bool * N * list oracle * trace)%type.
-Definition mkcase (id : N) (fixed : bool) (mode : N) (tbl : list oracle) (tr : trace) : case := (id, fixed, mode, tbl, tr).
+Definition case := (N * fixes * N * list oracle * trace)%type.
+Definition mkcase (id : N) (fix_dialout fix_label : bool) (mode : N) (tbl : list oracle) (tr : trace) : case :=
+  (id, {| fx_dialout := fix_dialout; fx_label := fix_label |}, mode, tbl, tr).
 
 Fixpoint first_where (f : step -> bool) (i : N) (tr : trace) : option N :=
   match tr with
@@ -343,15 +401,16 @@ Fixpoint first_where (f : step -> bool) (i : N) (tr : trace) : option N :=
 Definition judge (c : case) : list (N * N * N) :=
   let '(id, fixed, mode, tbl, tr) := c in
   (if N.eqb mode 0 then
-     match first_where (fun s => let '(tag, i, o) := s in negb (agrees (model fixed tbl tag i) i o)) 0 tr with
+     match first_where (fun s => let '(tag, i, o) := s in
+                          match i with Some i => negb (agrees (model fixed tbl tag i) i o) | None => false end) 0 tr with
      | Some k => [(id, 1%N, k)] | None => [] end
    else []) ++
-  (match first_where (fun s => let '(tag, i, o) := s in negb (P_one tag i o)) 0 tr with
+  (match first_where (fun s => negb (P_step s)) 0 tr with
    | Some k => [(id, 2%N, k)] | None => [] end) ++
   (if N.eqb mode 0 then
      match first_where (fun s => let '(tag, i, o) := s in
                           match i with
-                          | IDoc j => spec_invalid_doc j && negb (inert_verdict (model fixed tbl tag i))
+                          | Some (IDoc j) => spec_invalid_doc j && negb (inert_verdict (model fixed tbl tag (IDoc j)))
                           | _ => false
                           end) 0 tr with
      | Some k => [(id, 3%N, k)] | None => [] end
@@ -362,7 +421,10 @@ Definition judge_all (cs : list case) : list (N * N * N) := flat_map judge cs.
 (* ---- compact constructors for big documents in cases files ------------------------------------ *)
 Definition jrep (n : nat) (x : json) : list json := List.repeat x n.
 Definition jnest (n : nat) (x : json) : json := Nat.iter n (fun j => JArr [j]) x.
-Definition jstr (n : nat) : json := JStr (String.concat "" (List.repeat "a" n)).
+(* strings with bytes that cannot be written in a cases file *)
+Definition jpad (n : nat) : json := JStr (fold_right (fun _ acc => String "a"%char acc) EmptyString (List.repeat tt n)).
+Definition sb (l : list nat) : string :=
+  fold_right (fun n acc => String (Ascii.ascii_of_nat n) acc) EmptyString l.
 
 (* ---- translator self-test: the schema read by reflection from the running package
         must be the generated one (code 4) ------------------------------------------------------------ *)
